@@ -103,11 +103,31 @@ def r2(R2, cfg, F):
             rets = [s for _, _, s in b.assigns() if s['place']['l'] == 0 and s['rv']['k'] == 'aggregate' and s['rv'].get('variant_name') == 'Ok']
             ok = len(vec) == 1 and {('arg', 3)} in caps and {('call', vec[0].bb)} in caps and len(rets) == 1 and b.origins(rets[0]['rv']['ops'][0]) == {('call', vec[0].bb)}
     R2.check(ok, cfg, b.path, 'reads-requested-dir-with-recording-source', 'inner must list exactly the requested directory through the recording source and return the vector the closure fills', b.loc())
-    # the closure
+    # the closure (normal form: a helper such as `has_extension` is written in place)
     push = [c for c in cb.calls() if c.callee and c.callee.name == 'push' and 'Vec' in c.callee.best]
+    # membership test of the extension: `extensions.contains(&ext)` or `extensions.iter().any(|e| *e == ext)`
     cont = [c for c in cb.calls() if c.callee and c.callee.name == 'contains' and 'slice' in c.callee.best]
+    member = None      # (call whose bool result is the membership, operand holding the list, operand holding the extension)
+    if len(cont) == 1:
+        member = (cont[0], cont[0].args[0], cont[0].args[1], cb)
+    else:
+        anyc = [c for c in cb.calls() if c.callee and c.callee.defp == 'std::iter::Iterator::any']
+        if len(anyc) == 1:
+            it = cb.call_roots(anyc[0].args[0])
+            lit = agg_direct(cb, anyc[0].args[1])
+            pb = F.body(lit['rv']['closure']) if lit is not None and lit['rv'].get('closure') else None
+            if len(it) == 1 and it[0].callee.name in ('iter', 'into_iter') and pb is not None:
+                eqs = [c for c in pb.calls() if c.callee and c.callee.name in ('eq',) and c.callee.trait == 'std::cmp::PartialEq']
+                others = [c for c in pb.calls() if c not in eqs]
+                if len(eqs) == 1 and not others and eqs[0].dest['l'] == 0:
+                    sides = [pb.origins(a, passthrough=common.pt_deref) for a in eqs[0].args[:2]]
+                    up = [x for x in sides if x and all(r[0] == 'upvar' for r in x)]
+                    el = [x for x in sides if x == {('arg', 2)}]
+                    if len(up) == 1 and len(el) == 1:
+                        k = list(up[0])[0][1]
+                        member = (anyc[0], it[0].args[0], lit['rv']['ops'][k], cb)
     sw = cb.primary_switch(2)
-    ok = len(push) == 1 and len(cont) == 1 and sw is not None
+    ok = len(push) == 1 and member is not None and sw is not None
     why = 'shape'
     if ok:
         adt = F.adt('source::DirEntry')
@@ -116,15 +136,11 @@ def r2(R2, cfg, F):
         ok = push[0].bb not in cb.reachable([0], removed_edges=[(sw, file_t)])
         why = 'an id is pushed for an entry that is not a File'
         if ok:
-            sw2 = [bb for bb, t in cb.terms() if t['k'] == 'switch' and cb.access_path(t['discr']) == ['call@bb%d' % cont[0].bb]]
-            true = [d for d, lab in cb.edges(sw2[0]) if lab != 'sw:0'] if len(sw2) == 1 else []
-            ok = len(true) == 1 and push[0].bb not in cb.reachable([0], removed_edges=[(sw2[0], true[0])])
+            g = [x for x in common.guards_of(cb, push[0].bb) if x[3][0] == 'val' and x[3][1] == ['call@bb%d' % member[0].bb] and x[2] != 'sw:0']
+            ok = len(g) == 1
             why = 'an id is pushed although its extension is not in the list'
         if ok:
-            ext = cb.downcast_source({'k': 'copy', 'place': {'l': [d for d in cb.defs_of(cont[0].args[1]['place']['l']) if d[0] == 'stmt'][0][3]['rv']['place']['l'], 'p': []}}) \
-                if cont[0].args[1]['k'] in ('copy', 'move') else None
-            e_root = cb.origins(cont[0].args[1])
-            ok = cb.origins(cont[0].args[0]) == {('upvar', 0)} and e_root == {('arg', 2)}
+            ok = cb.origins(member[1], passthrough=common.pt_deref) == {('upvar', 0)} and cb.origins(member[2], passthrough=common.pt_deref) == {('arg', 2)}
             # which File field: extension = field 1, id = field 0
             def file_field(op):
                 seen = set()
@@ -150,7 +166,7 @@ def r2(R2, cfg, F):
                         elif d[0] == 'call' and d[2].callee and d[2].callee.name in ('into', 'from', 'deref'):
                             stack.append(d[2].args[0])
                 return None
-            ok = ok and file_field(cont[0].args[1]) == 1 and file_field(push[0].args[1]) == 0 and cb.origins(push[0].args[0]) == {('upvar', 1)}
+            ok = ok and file_field(member[2]) == 1 and file_field(push[0].args[1]) == 0 and cb.origins(push[0].args[0], passthrough=common.pt_deref) == {('upvar', 1)}
             why = 'the extension test / the pushed id do not use the File entry\'s (id, ext) fields'
     R2.check(ok, cfg, cb.path, 'push-only-File-with-listed-extension', 'select_ids closure: %s' % why, cb.loc())
 
@@ -199,7 +215,15 @@ def r3(R3, cfg, F):
             reach = cb.reachable(errt)
             effects = [c for c in cb.calls() if c.bb in reach and c.callee and c.callee.recv_kind() == '&mut self' and not c.exp]
             ok = not effects and bool(reach & set(cb.return_blocks())) and not [c for c in cb.calls() if c.bb in reach and c.target is None]
-            ok = ok and cb.origins(ex[0].args[0]) == {('upvar', 1)} and 'ids' in str([cb.access_path(ex[0].args[1])] + [cb.access_path(r.args[0]) for r in cb.call_roots(ex[0].args[1])])
+            def from_ids(op, depth=0):
+                # the slice / iterator handed to extend is made from the child's `ids` (.iter(), .cloned(), &[..] ..)
+                if 'ids' in (common.deep_path(cb, op) or []):
+                    return True
+                if depth > 4:
+                    return False
+                return any(r.args and r.callee and r.callee.name in ('iter', 'cloned', 'copied', 'into_iter', 'deref', 'as_slice', 'clone', 'to_vec', 'into')
+                           and from_ids(r.args[0], depth + 1) for r in cb.call_roots(op))
+            ok = ok and cb.origins(ex[0].args[0], passthrough=common.pt_deref) == {('upvar', 1)} and from_ids(ex[0].args[1])
     R3.check(ok, cfg, cb.path, 'child-extends-on-Ok-only;Err-skipped', 'a child directory must contribute its ids only when it loads, and a failing child must be skipped without any effect', cb.loc())
     # default sub_directories forwards exactly the Directory arm
     sb = F.body('dirs::DirLoadable::sub_directories')
